@@ -270,7 +270,11 @@ def inject(r, prog, defect, where=None):
 def task(W, payload):
     defect = payload["defect"]
     r = random.Random(f"C17:{payload['seed']}:{payload['index']}")
-    prog = Gen(r, Opts(max_strats=3, max_flows=5, n_requests=3)).program()
+    if defect == "finalized":
+        # no birth flow in the model that gets finalised, so that a late birth flow can only be refused because of the finalisation
+        prog = Gen(r, Opts(max_strats=3, max_flows=5, n_requests=3, kinds=["transition", "death", "universal_death", "import", "absolute", "infection"])).program()
+    else:
+        prog = Gen(r, Opts(max_strats=3, max_flows=5, n_requests=3)).program()
     out = mk_out(prog)
     bump(out, "defect:" + defect)
     h = prog_hash(prog["build"])
